@@ -1,4 +1,5 @@
 import Proofs.Lemmas.PubkeyCacheSim
+import Proofs.Lemmas.PubkeyCacheOld
 /-!
 # C16 — the pubkey cache maps index and key exactly along each deposit history
 
@@ -172,6 +173,13 @@ theorem old_addValidator_diverges :
     Old.addValidator [⟨none, 0, [0], [(0, 0)]⟩] 64 0 1 0 = .outOfFuel ∧
     ∃ s', addValidator [⟨none, 0, [0], [(0, 0)]⟩] 5 0 1 0 = .ok (s', none) := by
   exact ⟨by decide, [⟨none, 0, [0], [(0, 0)]⟩, ⟨some 0, 0, [], []⟩], by decide⟩
+
+/-- … and not only at fuel 64: the old `AddValidator` runs out of ANY fuel on this input — the modelled
+call does not terminate (the harness observed the Go call as `diverged`). -/
+theorem old_addValidator_never_terminates (fuel : Nat) :
+    Old.addValidator [⟨none, 0, [0], [(0, 0)]⟩] fuel 0 1 0 = .outOfFuel := by
+  have := old_add_chain fuel 0
+  simpa [divChain] using this
 
 /-! ## Non-vacuity of the hypotheses -/
 
